@@ -50,7 +50,7 @@ MANIFEST = dict(
     design='5.C07')
 LEAN_TARGETS = ['JediModel.Props.C07', 'JediModel.Drivers.C07']
 
-SCRATCH = '/tmp/scratch-c07c06'
+SCRATCH = os.environ.get('VERIF_SCRATCH', '/tmp/scratch-c07c06')
 ALLOWED_EXC = ('RefactoringError', 'ValueError')
 
 
@@ -220,6 +220,66 @@ def node_spans(root):
         spans[id(n)] = (s, off[0])
     rec(root)
     return spans
+
+
+def first_leaf_of(n):
+    while hasattr(n, 'children'):
+        n = n.children[0]
+    return n
+
+
+def line_start_offset(text, line):
+    """offset of the first character of 1-based `line` (None when out of range)"""
+    off = 0
+    for i, l in enumerate(split_keepends(text), 1):
+        if i == line:
+            return off
+        off += len(l)
+    return None
+
+
+def prefix_groups(root, node_map, old):
+    """maximal rewritten nodes, merged when they touch: [(start incl. prefix, start of the first token,
+    end, replacement text)]"""
+    spans = node_spans(root)
+    mapped = sorted(((spans[id(nd)], nd, s) for nd, s in node_map.items()), key=lambda x: (x[0][0], -x[0][1]))
+    groups, pos = [], 0
+    for (s, e), nd, text in mapped:
+        if s < pos:
+            continue                    # inside a node that is replaced as a whole
+        vstart = s + len(first_leaf_of(nd).prefix)
+        if groups and groups[-1][2] == s:
+            g = groups[-1]
+            groups[-1] = (g[0], g[1], e, g[3] + text)
+        else:
+            groups.append((s, vstart, e, text))
+        pos = e
+    return groups
+
+
+def prefix_preserved(prefix, repl):
+    """Is the text in front of a rewritten node - `prefix`: line breaks, blank lines, comment lines,
+    indentation - still in front of what replaces it?  The replacement `repl` (it starts where the
+    prefix started) may insert whole new lines between the lines of the prefix, nothing else; when
+    the node is deleted together with the rest of its line the indentation of that line may go too.
+    -> None | description of what is lost"""
+    pl = split_keepends(prefix)         # l_1 .. l_m, the last one is the partial line (indentation)
+    rl = split_keepends(repl)
+    j = -1
+    for i, l in enumerate(pl[:-1]):
+        k = next((k for k in range(j + 1, len(rl)) if rl[k] == l), None)
+        if k is None:
+            return 'line %d of the text in front of the rewritten node, %r, is not in the new text' % (i + 1, l)
+        j = k
+    last = pl[-1]
+    rest = rl[j + 1:]
+    if ''.join(rest) == '':
+        return None                     # nothing follows: the node and its line are deleted
+    if len(pl) == 1:
+        ok = rest[0].startswith(last)
+    else:
+        ok = any(r.startswith(last) for r in rest)
+    return None if ok else 'the indentation %r in front of the rewritten node is not in the new text' % last
 
 
 # ------------------------------------------------------------------ file system
@@ -505,6 +565,32 @@ def run_case(ctx, n, files, main_rel, req, do_apply, reqs, pending, verbose=Fals
             if ''.join(expect) != it['new']:
                 ctx.fail('oracle-bytes', 'text outside the rewritten nodes is not preserved byte for byte',
                          fcase, expected=''.join(expect), observed=it['new'], how=HOW)
+            # the text in front of every rewritten node (its parso prefix: line break, comment and blank
+            # lines, indentation) is text outside the node as well: it must survive in the replacement,
+            # with nothing but whole new lines inserted.  For extract_* the part of the prefix from the
+            # line of the selection start on is selected text, not judged.
+            sel_off = None
+            if req['kind'] in ('extract_variable', 'extract_function') and rel == case['file'] \
+                    and isinstance(req.get('line'), int):
+                sel_off = line_start_offset(it['old'], req['line'])
+            multi = cont = False
+            for gi, (gs, gv, ge, text) in enumerate(prefix_groups(cf._module_node, cf._node_to_str_map, it['old'])):
+                pfx = it['old'][gs:gv]
+                if sel_off is not None and gs <= sel_off < gv:
+                    pfx = it['old'][gs:sel_off]
+                multi = multi or ('\n' in pfx or '\r' in pfx)
+                # a rewritten node that is the first token of a continuation line (not the leaf the new
+                # line is inserted before)
+                cont = cont or (gi > 0 and ('\n' in pfx or '\r' in pfx))
+                lost = prefix_preserved(pfx, text)
+                if lost is not None:
+                    ctx.fail('oracle-bytes', 'text in front of a rewritten node is not preserved: ' + lost,
+                             dict(fcase, prefix=pfx), expected={'text_in_front_of_the_node': pfx}, observed={'replacement': text, 'new_code': it['new']},
+                             how=HOW)
+            ctx.count('oracle-prefix', key, nontrivial=multi,
+                      bucket='%s/%s/%s' % (req['kind'], 'continuation-line-node' if cont else
+                                           'multi-line-prefix' if multi else 'one-line-prefix',
+                                           eol_kind(it['old']).split('/')[0]))
             # patch
             old_l, new_l = norm_lines(it['old']), norm_lines(it['new'])
             ctx.count('oracle-patch', key, nontrivial=it['old'] != it['new'],
